@@ -46,6 +46,14 @@ Ref(cfg) ==
             [] cfg.shape = "fank" -> {<<N[i].n, v \o M(i)>> : i \in 1..Len(N)}      \* k parallel nodes with output keys joined at END
             [] cfg.shape = "fmap" -> Str(v \o M(1) \o M(2))                        \* producer {x: v, y: marker} field-mapped into the consumer
             [] cfg.shape \in {"nmap", "nmapn"} -> Str(v \o M(1) \o M(2))             \* a -> named map type {x: v, y: marker} -> b joins it
+            \* NIL INTERFACE VALUES (legal on interface-typed edges; written "" like the empty string):
+            \*   nil1  a : string -> any returns nil, straight to END of a Graph[string, any]
+            \*   nil2  a returns nil, b : any -> any hands nil on;   nilif  the same over a user interface type
+            \*   nilin the graph input of a Graph[any, string] is nil, a : any -> string treats nil as ""
+            \*   nilbr a returns nil, a branch whose condition takes `any` picks b or c : any -> string
+            [] cfg.shape \in {"nil1", "nil2", "nilif"} -> Str("")
+            [] cfg.shape = "nilin" -> Str(M(1))
+            [] cfg.shape = "nilbr" -> Str(Mark(NodeByName(cfg, cfg.pick)))
             [] cfg.shape = "branch" -> Str(v \o M(1) \o Mark(NodeByName(cfg, cfg.pick)))
             [] cfg.shape = "keys" -> {<<"out", v \o Cat([i \in 1..Len(N) |-> M(i)])>>}
 
